@@ -30,9 +30,10 @@ Section Send.
   Variable G : Bits.Model.Ecmath.point.
   Variable sha256 ripemd160 : bytes -> bytes.
   Variable scriptpubkey : bytes -> result bytes.
+  Variable is_address : bytes -> bool.
   Variable sats : utxo -> Z.                      (* the exact satoshi value of a reported output *)
 
-  Notation build := (build_unsigned p a n G sha256 ripemd160 scriptpubkey).
+  Notation build := (build_unsigned p a n G sha256 ripemd160 scriptpubkey is_address).
   Notation lss := (loop_scriptsig p a n G sha256 ripemd160).
   Notation mktxin := (mk_txin p a n G sha256 ripemd160).
 
@@ -56,9 +57,7 @@ Section Send.
     apply PT.txin_ser_inv in H as (Rv & Rl & ->). exists ss. cbn [fst snd]. auto.
   Qed.
 
-  (* the change-or-sender address scriptpubkey() is applied to *)
-  Definition change_target (sender_addr : bytes) (change_addr : option bytes) : bytes :=
-    match change_addr with Some (c :: r) => c :: r | _ => sender_addr end.
+  Notation change_of := (change_script scriptpubkey is_address).
 
   Lemma build_inv sender recipient change ki frac fee total unspents u :
     build sender recipient change ki frac fee total unspents = Ok u ->
@@ -66,7 +65,7 @@ Section Send.
       sat_of_btc total = Ok total_available /\
       amount_to_send frac total_available = Ok (us_to_send u) /\
       select (fun x => sat_of_btc (u_amount x)) (mktxin ki) unspents (us_to_send u) 0 = Ok (us_selected u, us_total u) /\
-      scriptpubkey recipient = Ok rs /\ scriptpubkey (change_target sender change) = Ok chs /\
+      scriptpubkey recipient = Ok rs /\ change_of sender change = Ok chs /\
       0 <= us_to_send u - fee < 2 ^ 64 /\
       us_txouts u =
         PT.txout_bytes (MT.mk_txout (us_to_send u - fee) rs) ::
@@ -128,7 +127,7 @@ Section Send.
   Theorem outputs_shape sender recipient change ki frac fee total unspents u :
     build sender recipient change ki frac fee total unspents = Ok u ->
     exists rs chs,
-      scriptpubkey recipient = Ok rs /\ scriptpubkey (change_target sender change) = Ok chs /\
+      scriptpubkey recipient = Ok rs /\ change_of sender change = Ok chs /\
       0 <= us_to_send u - fee < 2 ^ 64 /\
       let change_v := us_total u - us_to_send u in
       us_txouts u =
@@ -163,7 +162,7 @@ Section Send.
   Qed.
 
   (* ---------------- the bytes returned ---------------- *)
-  Notation send := (send_tx p a n G sha256 ripemd160 scriptpubkey).
+  Notation send := (send_tx p a n G sha256 ripemd160 scriptpubkey is_address).
 
   Theorem send_unsigned_bytes sender recipient change flag frac fee version locktime total unspents draws raw :
     send sender recipient change [] flag frac fee version locktime total unspents draws = Ok raw ->
